@@ -112,4 +112,7 @@ theorem facts_ok : Oidc.Facts.GoodRandom := by decide
 theorem shape_handleCallback_ok : Oidc.Shapes.Shape_handleCallback := by unfold Oidc.Shapes.Shape_handleCallback; rfl
 theorem shape_defaultInitiateAuthentication_ok : Oidc.Shapes.Shape_defaultInitiateAuthentication := by unfold Oidc.Shapes.Shape_defaultInitiateAuthentication; rfl
 
+/-! further obligations against the regenerated program text (`Oidc/Shapes.lean`): constructor wiring and URL builders -/
+theorem text_TraefikOidc_buildAuthURL_ok : Oidc.Shapes.Text_TraefikOidc_buildAuthURL := by unfold Oidc.Shapes.Text_TraefikOidc_buildAuthURL; rfl
+
 end Oidc.Props.C03
